@@ -92,6 +92,25 @@ def check_zone_vs_model(ctx, tz, label, z, pz, rng, siblings, shape):
     ctx.count('queries', len(pts))
 
 
+def check_last_year(ctx, tz, label, z, pz):
+    """yearly rules keep producing onsets up to and including year 9999"""
+    s, e = pz.transitions(9999)
+    for u in (min(s, e) + D.timedelta(days=10), max(s, e) - D.timedelta(days=10), max(s, e) + D.timedelta(days=5), D.datetime(9999, 1, 10, 12)):
+        if u.year != 9999 or u > D.datetime(9999, 12, 30):
+            continue
+        exp = pz.at(u)
+        ctx.ev()
+        ctx.count('year_9999_probes')
+        try:
+            got = answers_at(z, u, tz.UTC)
+        except Exception as ex:
+            ctx.violation('conversion-raised', {'zone': label, 'utc': u.isoformat()}, repr(ex))
+            continue
+        if got[0] != exp[0] or got[1] != exp[0] or got[2] != exp[1]:
+            ctx.violation('vtimezone-semantics', {'zone': label, 'utc': u.isoformat()},
+                          'in the last year of the calendar: converted %d / offset %d %r, rules say %d %r' % (got[0], got[1], got[2], exp[0], exp[1]))
+
+
 def check_before_first_onset(ctx, tz, label, z, pz, first_year):
     for y in (first_year - 1, first_year - 30):
         for m in (1, 7):
@@ -161,6 +180,9 @@ def check_first_year(ctx, tz, label, z, pz, first_year):
         if got[4] == 1 and not tz.datetime_ambiguous(wall, z):
             ctx.violation('fold-flag-on-unambiguous-time', {'zone': label, 'utc': u.isoformat(), 'first_year': first_year},
                           'UTC %s converts to %s fold=1, but datetime_ambiguous() of that wall time is False' % (u.isoformat(), wall.isoformat()))
+        if got[0] != got[1]:
+            ctx.violation('first-onset-ignored', {'zone': label, 'utc': u.isoformat(), 'first_year': first_year},
+                          'in the first year the conversion moved the clock by %d s but utcoffset() of the result is %d s' % (got[0], got[1]))
         if got[1] != exp[0] or got[2] != exp[1]:
             ctx.violation('first-onset-ignored', {'zone': label, 'utc': u.isoformat(), 'first_year': first_year},
                           'in the first year (DTSTART onsets) got offset %d %r, rules say %d %r' % (got[1], got[2], exp[0], exp[1]))
@@ -468,6 +490,8 @@ def run(ctx):
             z2 = tz.tzical(io.StringIO(text)).get()
             c05.check_zone(ctx, tz, label, 'tzical', z2, TM.PosixModel(pz, [2019, 2020, 2021]), rng)
             check_before_first_onset(ctx, tz, label, z2, pz, first_year)
+            if not rdate and ctx.counters.get('year_9999_probes', 0) < 60:
+                check_last_year(ctx, tz, label, z2, pz)
             check_first_year(ctx, tz, label, tz.tzical(io.StringIO(text)).get(), pz, first_year)
             if rdate:
                 check_after_list_end(ctx, tz, label, text, pz, first_year, nyears)
